@@ -6,7 +6,7 @@ PROP_FILE = 'Props/C08.v'
 EVAL_FILES = ['Oracle/C08Oracle.v']
 CRATES = ['c08']
 MODES = ['debug', 'release']
-IMPORTS = ('Require Import V.Base.MachineInt V.Model.LogBase V.Model.Broadcast V.Model.BroadcastShow V.Spec.Lossy V.Oracle.C08Oracle.')
+IMPORTS = ('Require Import V.Base.MachineInt V.Model.LogBase V.Model.Broadcast V.Model.BroadcastThreads V.Model.BroadcastShow V.Spec.Lossy V.Oracle.C08Oracle.')
 RULE = ('sequential histories of transmit / receive / dump on a real BroadcastTransmitter + CopyBroadcastReceiver over one buffer whose three '
         'trailer counters are preset to c0: c0 in {0, 2^31-2cap .. 2^31+2cap, 2^32-2cap .. 2^32+2cap, 2^40, random multiples of 8}; cap 32..4096 '
         '(and 65536 for the 4096-byte scratch limit); message lengths 0..cap/8 at every alignment; patterns: ping-pong, bursts that leave the '
@@ -127,8 +127,75 @@ def _history(rng, cap, c0, pattern):
     return ops
 
 
+def _steps_tx(cap, c0, pre, msgs):
+    """number of shared accesses of the transmitter thread (independent of the interleaving)"""
+    sim = Sim(cap, c0)
+    for m in pre:
+        sim.tx(m[0], m[2])
+    n = 0
+    for m in msgs:
+        t0 = sim.tail
+        sim.tx(m[0], m[2])
+        n += 9 if sim.latest != t0 else 7
+    return n
+
+
+def _conc_configs(rng, big):
+    cfgs = []
+    for cap in (32, 64):
+        mx = cap // 8
+        for c0 in (0, 2**31 - cap, 2**31 - 8, 2**40 + 8 * rng.randrange(0, cap // 8)):
+            for variant in range(3 if big else 2):
+                pre = []
+                if variant == 1:
+                    pre = [[rng.choice(LEGAL), 900 + i, rng.randrange(0, mx + 1)] for i in range(rng.randrange(1, 4))]
+                nmsg = rng.randrange(3, 7) if cap == 32 else rng.randrange(5, 9)
+                msgs = [[rng.choice(LEGAL), 10 + i, rng.choice([mx, mx, rng.randrange(0, mx + 1)])] for i in range(nmsg)]
+                cfgs.append((cap, c0, pre, msgs, rng.randrange(2, 5)))
+    return cfgs
+
+
+def _conc_cases(rng, big):
+    cases = []
+    for cap, c0, pre, msgs, nrecv in _conc_configs(rng, big):
+        nt = _steps_tx(cap, c0, pre, msgs)
+        nr = 10 * nrecv
+        base = {'kind': 'conc', 'cap': cap, 'c0': c0, 'pre': pre, 'msgs': msgs, 'nrecv': nrecv}
+        scheds = [[], [1] * nr]
+        # at most one pre-emption: one thread runs a steps, the other runs to completion, the first finishes
+        for a in range(1, nt):
+            scheds.append([0] * a + [1] * nr)
+        for a in range(1, nr):
+            scheds.append([1] * a + [0] * nt)
+        if big:
+            for a in range(1, nt, 2):
+                for b in range(1, nr, 2):
+                    scheds.append([0] * a + [1] * b + [0] * nt)
+            for a in range(1, nr, 2):
+                for b in range(1, nt, 2):
+                    scheds.append([1] * a + [0] * b + [1] * nr)
+        # random schedules with bursts
+        for _ in range(40 if big else 12):
+            sc = []
+            while len(sc) < nt + nr:
+                sc += [rng.randrange(0, 2)] * rng.choice([1, 1, 2, 3, 5, 8, 13])
+            scheds.append(sc)
+        if not big:
+            keep = scheds[:2] + rng.sample(scheds[2:], min(len(scheds) - 2, 26))
+            scheds = keep
+        for sc in scheds:
+            cases.append(dict(base, sched=sc))
+    return cases
+
+
 def generate(rng, tier):
     big = tier == 'thorough'
+    cases = _seq_cases(rng, big)
+    cases += _conc_cases(rng, big)
+    return cases
+
+
+def _seq_cases(rng, big):
     cases = []
     caps = [32, 64, 64, 128, 128, 256, 512, 1024, 4096]
     reps = 6 if big else 1
@@ -169,7 +236,7 @@ def generate(rng, tier):
                       'ops': [['T', 3841, 1, ln], ['R'], ['T', 3842, 2, 16], ['R'], ['R']]})
     if not big:
         rng.shuffle(cases)
-        cases = cases[:1400]
+        cases = cases[:900]
     return cases
 
 
@@ -180,7 +247,22 @@ def impl_line(c):
         for o in c['ops']:
             parts.append('T%d:%d:%d' % tuple(o[1:]) if o[0] == 'T' else o[0])
         return ' '.join(parts)
+    if c['kind'] == 'conc':
+        parts = ['conc', str(c['cap']), str(c['c0']), str(c['nrecv']), ','.join(str(t) for t in c['sched']) or '-']
+        parts += ['P%d:%d:%d' % tuple(m) for m in c['pre']]
+        parts += ['M%d:%d:%d' % tuple(m) for m in c['msgs']]
+        return ' '.join(parts)
     raise ValueError(c)
+
+
+def _msgs_coq(ms):
+    return '[' + '; '.join('(%s, payload %s %s)' % (z(m[0]), z(m[1]), z(m[2])) for m in ms) + ']'
+
+
+def normalize(o):
+    if o == ('app', 'Crash', []):
+        return ('app', 'CCrash', [])
+    return o
 
 
 def _ops_coq(c):
@@ -201,7 +283,11 @@ def _pre_coq(c):
 
 def model_expr(c, mode):
     if c['kind'] == 'seq':
-        return 'map show_obs (run_history %s W64 %s %s %s %s)' % (mode_c(mode), z(c['cap']), z(c['c0']), _pre_coq(c), _ops_coq(c))
+        return 'map show_obs (run_history %s W64 true %s %s %s %s)' % (mode_c(mode), z(c['cap']), z(c['c0']), _pre_coq(c), _ops_coq(c))
+    if c['kind'] == 'conc':
+        return 'show_conc %s (run_conc %s W64 true %s %s %s %s %d%%nat %s)' % (
+            z(c['cap']), mode_c(mode), z(c['cap']), z(c['c0']), _msgs_coq(c['pre']), _msgs_coq(c['msgs']), c['nrecv'],
+            '[' + '; '.join(str(t) for t in c['sched']) + ']')
     raise ValueError(c)
 
 
@@ -210,6 +296,10 @@ def oracle_expr(c, mode, obs):
         if isinstance(obs, int) or obs[0] != 'list':
             return 'false'
         return 'holds_seq %s %s %s %s %s' % (z(c['cap']), z(c['c0']), _pre_coq(c), _ops_coq(c), to_coq(obs))
+    if c['kind'] == 'conc':
+        if isinstance(obs, int) or obs[0] != 'app' or obs[1] not in ('CObs', 'CCrash'):
+            return 'false'
+        return 'holds_conc %s %s %s %s' % (z(c['cap']), _msgs_coq(c['pre']), _msgs_coq(c['msgs']), to_coq(obs))
     raise ValueError(c)
 
 
@@ -237,7 +327,17 @@ def nontrivial(c):
 
 def shrink(c):
     out = []
-    if c['kind'] != 'seq':
+    if c['kind'] == 'conc':
+        sc = c['sched']
+        for i in range(len(sc)):
+            out.append(dict(c, sched=sc[:i] + sc[i + 1:]))
+        if len(c['msgs']) > 1:
+            out.append(dict(c, msgs=c['msgs'][:-1]))
+        if c['nrecv'] > 1:
+            out.append(dict(c, nrecv=c['nrecv'] - 1))
+        if c['pre']:
+            out.append(dict(c, pre=c['pre'][:-1]))
+        out.sort(key=lambda x: len(str(x)))
         return out
     ops = c['ops']
     for i in range(len(ops)):
